@@ -30,13 +30,12 @@ import (
 	ssvtypes "github.com/bloxapp/ssv/protocol/v2/types"
 	registrystorage "github.com/bloxapp/ssv/registry/storage"
 	"github.com/bloxapp/ssv/storage/basedb"
-	"github.com/bloxapp/ssv/storage/kv"
 )
 
 func evidHash(b []byte) []byte { h := sha256.Sum256(b); return h[:8] }
 
-// NewMemDB opens an in-memory badger (the "disk" of a simulated node).
-func NewMemDB() (*kv.BadgerDB, error) { return kv.NewInMemory(zap.NewNop(), basedb.Options{}) }
+// NewMemDB returns an empty database for one simulated node (a namespace of the process's badger).
+func (env *Env) NewMemDB() *NSDB { return env.Disk.NewDB() }
 
 // TaskCall is one call the event handler's tasks made on the task executor.
 type TaskCall struct {
